@@ -43,6 +43,7 @@ From V Require Import Calc.Calc2Defs.
 From V Require Import Proto.UringOpDefs.
 From V Require Import Proto.AtomicListDefs.
 From V Require Import Proto.FdOwnerDefs.
+From V Require Import Calc.TaskBoxDefs.
 Extraction Blacklist List String Int.
 Cd "../ocaml".
 Extraction "model.ml"
@@ -261,5 +262,6 @@ Extraction "model.ml"
   AtomicList.chain_of
   FdOwner.run_ops
   FdOwner.field
+  TaskBox.exec
   (*END*).
 Cd "../coq".
